@@ -82,3 +82,29 @@ Proof. intros H. apply validate_pres_accept_iff in H. destruct H as [Hj [k [Hk [
   - apply A7. rewrite <- A3. exact H.
   - apply Hx. exact H.
   - apply (A8 i H). - apply (A8 i H). - apply Hl. exact H. Qed.
+
+(* ---- C08: a token produced for one verification method verifies only under that method's key, the same nonce and a scope that contains it ---- *)
+Theorem verify_jws_binds t h o km : (forall k, pt_sig_ok t k = true -> k = km) -> verify_jws t h o = inl tt ->
+  oz_eqb (pt_nonce t) (po_nonce o) = true
+  /\ exists q m, (match po_method_id o with Some u => Some (query_of_url u) | None => pt_kid t end) = Some q
+       /\ resolve_method (h_doc h) q (po_scope o) = Some m /\ is_jwk (m_data m) = true /\ m_data m = km.
+Proof.
+  intros Hk. unfold verify_jws. destruct (oz_eqb (pt_nonce t) (po_nonce o)) eqn:En; cbn [negb]; [|discriminate].
+  destruct (match po_method_id o with Some u => Some (query_of_url u) | None => pt_kid t end) as [q|] eqn:Eq; [|discriminate].
+  destruct (resolve_method (h_doc h) q (po_scope o)) as [m|] eqn:Er; [|discriminate].
+  destruct (is_jwk (m_data m)) eqn:Ej; cbn [negb]; [|discriminate].
+  destruct (pt_sig_ok t (m_data m)) eqn:Es; [|discriminate]. intros _. split; [reflexivity|]. exists q, m. repeat split; auto.
+Qed.
+Corollary verify_jws_other_nonce t h o : oz_eqb (pt_nonce t) (po_nonce o) = false -> verify_jws t h o = inr PVNonce.
+Proof. unfold verify_jws. intros ->. reflexivity. Qed.
+Corollary verify_jws_scope_excludes t h o q : oz_eqb (pt_nonce t) (po_nonce o) = true ->
+  (match po_method_id o with Some u => Some (query_of_url u) | None => pt_kid t end) = Some q ->
+  resolve_method (h_doc h) q (po_scope o) = None -> verify_jws t h o = inr PVMethodNotFound.
+Proof. unfold verify_jws. intros -> -> ->. reflexivity. Qed.
+Corollary verify_jws_other_key t h o q m km : (forall k, pt_sig_ok t k = true -> k = km) -> oz_eqb (pt_nonce t) (po_nonce o) = true ->
+  (match po_method_id o with Some u => Some (query_of_url u) | None => pt_kid t end) = Some q ->
+  resolve_method (h_doc h) q (po_scope o) = Some m -> m_data m <> km -> verify_jws t h o <> inl tt.
+Proof.
+  intros Hk En Eq Er Hd H. destruct (verify_jws_binds t h o km Hk H) as [_ [q' [m' [Eq' [Er' [_ Ed]]]]]].
+  rewrite Eq in Eq'. inversion Eq'; subst q'. rewrite Er in Er'. inversion Er'; subst m'. contradiction.
+Qed.
